@@ -88,8 +88,68 @@ def specVerdict (cfg : Cfg) (method path : Str) (encs : List Enc) (df : Str) (im
         else if impl != renderResp (serve (restrict cfg) method path encs df) then "FAIL:outside-root-influence"
         else "ok"
 
+/-- conf = `<version hex>@<products>`; products = `_` or `<product hex>=<rule>/<rule>` joined by `&`;
+    rule = `<hit>.<root rel hex>.<default file hex>` -/
+def parseSConf (s : String) : Option SConf :=
+  match s.splitOn "@" with
+  | [v, ps] => do
+    let v ← bytesOfHex v
+    let ps ← (if ps == "_" then some [] else (ps.splitOn "&").mapM fun x =>
+      match x.splitOn "=" with
+      | [p, rs] => do
+        let p ← bytesOfHex p
+        let rs ← (rs.splitOn "/").mapM fun r =>
+          match r.splitOn "." with
+          | [h, root, df] => do
+            let root ← bytesOfHex root
+            let df ← bytesOfHex df
+            some ({ hit := h == "1", root := slash :: sbName ++ slash :: root, df := df } : SRule)
+          | _ => none
+        some (p, rs)
+      | _ => none)
+    some { version := v, products := ps }
+  | _ => none
+
+/-- `sfh c=<conf>~…;pr=<product hex>;m=…;p=…;ae=…;ec=…;t=<tree>` -/
+def runHistory (op impl : String) : Ans :=
+  let bad : Ans := { model := "bad-op", verdict := "skip" }
+  match ((op.drop 4).toString.splitOn ";") with
+  | [c, pr, m, p, ae, ec, t] =>
+    match (kv c "c").bind (fun s => (s.splitOn "~").mapM parseSConf), (kv pr "pr").bind bytesOfHex,
+          (kv m "m").bind bytesOfHex, (kv p "p").bind bytesOfHex, (kv ae "ae").bind String.toNat?, kv ec "ec",
+          (kv t "t").bind parseTree with
+    | some cs, some product, some m, some p, some ae, some ec, some tree =>
+      let encs : List Enc := if ec == "1" then (if ae % 2 == 1 then [Enc.gzip] else []) ++ (if ae / 2 % 2 == 1 then [Enc.br] else []) else []
+      let model := match serveH tree [sbName] cs product m p encs with
+        | HRes.goOn => "goon"
+        | HRes.resp r => renderResp r
+      -- the oracle is the single-configuration oracle under the configuration in force (the last one loaded)
+      let rule := decidingRule (sInForce cs product)
+      let everHad := cs.any fun c => (decidingRule (slookup c.products product)).isSome
+      let tags := ["hist", "confs" ++ toString cs.length] ++
+        (if everHad && rule.isNone then ["rule-removed"] else []) ++
+        (match rule, cs.dropLast.getLast? with
+          | some r, some prev => (match decidingRule (slookup prev.products product) with
+              | some r0 => if r0.root != r.root then ["root-changed"] else []
+              | none => [])
+          | _, _ => []) ++
+        (if (match cs.dropLast.getLast?, cs.getLast? with | some a, some b => a.version == b.version && a.products.length == b.products.length | _, _ => false)
+          then ["same-version"] else []) ++
+        (if rule.isSome then ["nt"] else [])
+      let v := match rule with
+        | none => if impl == "goon" then "ok" else "FAIL:served-without-rule"
+        | some r =>
+          if impl == "goon" then "FAIL:rule-ignored"
+          else specVerdict { tree := tree, sb := [sbName], root := r.root } m p encs r.df impl
+      let v := if v.startsWith "FAIL:" && v != "FAIL:directory-not-404" && v != "FAIL:bad-name-not-404" && cs.length > 1
+        then "FAIL:stale-conf-" ++ (v.drop 5).toString else v
+      { model := model, verdict := v, tags := tags }
+    | _, _, _, _, _, _, _ => bad
+  | _ => bad
+
 def run (op impl : String) : Ans :=
   let bad : Ans := { model := "bad-op", verdict := "skip" }
+  if op.startsWith "sfh " then runHistory op impl else
   if op.startsWith "clean " then
     match bytesOfHex (op.drop 6).toString with
     | none => bad
